@@ -1186,6 +1186,12 @@ class Interp:
             eng.stats.setdefault("auto_inlined", [])
             if key not in eng.stats["auto_inlined"]:
                 eng.stats["auto_inlined"].append(key)
+            # the body is what gets inlined: a decorator that wraps the helper (a cache, say) is not - that is an obligation
+            from .structural import ALLOWED_DECORATORS
+            bad = [d for d in fi.decorators if d not in ALLOWED_DECORATORS]
+            if bad:
+                eng.oblige(st, f"helper_{key.rsplit('.', 1)[-1]}_is_not_wrapped_by_a_decorator_that_changes_what_a_call_does", False,
+                           props=tuple(getattr(self.contract, "props", ()) or ()), kind="frame", extra={"decorators": bad, "site": self.site(node)})
         return self.inline_call(st, key, self_v, args, kwargs, node)
 
     def inline_call(self, st, key, self_v, args, kwargs, node) -> V:
